@@ -210,23 +210,23 @@ pub fn profile_for(prop: &str, thorough: bool) -> Profile {
 // ---------------------------------------------------------------------------
 
 #[derive(Clone, Debug)]
-struct RawCfg {
-    kind_sel: u8,
-    nkeys: u16,
-    hasher: u8,
-    weigher: u8,
-    weight_by_key: bool,
-    ttl: u8,
-    tti: u8,
-    init_cap: u8,
-    cap_sel: u8,
-    cap_small: u8,
-    cap_slack: u8,
-    drop_unsynced: bool,
+pub struct RawCfg {
+    pub kind_sel: u8,
+    pub nkeys: u16,
+    pub hasher: u8,
+    pub weigher: u8,
+    pub weight_by_key: bool,
+    pub ttl: u8,
+    pub tti: u8,
+    pub init_cap: u8,
+    pub cap_sel: u8,
+    pub cap_small: u8,
+    pub cap_slack: u8,
+    pub drop_unsynced: bool,
 }
 
 #[derive(Clone, Debug)]
-enum RawOp {
+pub enum RawOp {
     Insert { k: u16, w: u8 },
     Get { k: u16 },
     Contains { k: u16 },
@@ -331,7 +331,7 @@ fn weight_table(cap: Option<u64>) -> Vec<u32> {
     }
 }
 
-fn build_case(p: &Profile, rc: RawCfg, raw_ops: Vec<RawOp>) -> Case {
+pub fn build_case(p: &Profile, rc: RawCfg, raw_ops: Vec<RawOp>) -> Case {
     let kind = p.kinds[idx(rc.kind_sel as u32, 256, p.kinds.len() as u32) as usize];
     let nkeys = 1 + idx(rc.nkeys as u32, 65536, p.max_keys);
     let hasher = [HasherKind::Sip, HasherKind::Sip, HasherKind::Identity, HasherKind::Collide][idx(rc.hasher as u32, 256, 4) as usize];
